@@ -44,9 +44,18 @@ def main():
         shutil.copy("/repo/Cargo.lock", os.path.join(wt, "Cargo.lock"))  # untracked in /repo
     meta = {"id": name, "source": "independent sub-agent given only the property text and a scratch worktree",
             "repo_head": sh("git -C /repo rev-parse --short HEAD")[1].strip()}
+    recheck = "--recheck" in sys.argv
+    if recheck:
+        # the change itself was verified earlier (suite passes, demo fails with / passes without):
+        # only run the checks again
+        mp = os.path.join(VERIF, "seeded", name, "meta.json")
+        old = json.load(open(mp))
+        for k in ("demo_without_change", "demo_with_change", "suite_with_change", "suite_counts", "demo_cmd", "demo_without_change_tail", "demo_with_change_tail"):
+            if k in old:
+                meta[k] = old[k]
     try:
         demo = os.path.join(src, "demo.rs")
-        has_demo = os.path.exists(demo)
+        has_demo = os.path.exists(demo) and not recheck
         env = {"CARGO_TARGET_DIR": TARGET}
         over = {}
         if os.path.exists(os.path.join(src, "eval.json")):
@@ -69,10 +78,11 @@ def main():
             meta["apply_error"] = out[-800:]
             print(json.dumps(meta, indent=1))
             return 1
-        rc, out = sh("cargo test --workspace --no-fail-fast --offline 2>&1 | grep -E '^test result|FAILED|failed|error' | head -20", cwd=wt, env={"CARGO_TARGET_DIR": TARGET})
-        results = re.findall(r"test result: (\w+)\. (\d+) passed; (\d+) failed", out)
-        meta["suite_with_change"] = "pass" if results and all(r[0] == "ok" for r in results) and "error" not in out else "FAIL"
-        meta["suite_counts"] = [(int(a), int(b)) for _, a, b in results]
+        if not recheck:
+          rc, out = sh("cargo test --workspace --no-fail-fast --offline 2>&1 | grep -E '^test result|FAILED|failed|error' | head -20", cwd=wt, env={"CARGO_TARGET_DIR": TARGET})
+          results = re.findall(r"test result: (\w+)\. (\d+) passed; (\d+) failed", out)
+          meta["suite_with_change"] = "pass" if results and all(r[0] == "ok" for r in results) and "error" not in out else "FAIL"
+          meta["suite_counts"] = [(int(a), int(b)) for _, a, b in results]
         if has_demo:
             shutil.copy(demo, os.path.join(wt, "tests", "seed_demo.rs"))
             rc, out = sh(demo_cmd + " 2>&1 | tail -15", cwd=wt, env=env)
